@@ -7,7 +7,7 @@ from ..core.common import Outcome, fingerprint
 from ..core.par import run_chunks, mark
 from ..comp import buffer as B
 
-MODULE = 'AiutiVerif.Buffer.Props'
+MODULE = 'AiutiVerif.Buffer.RunProps'
 LEAN_SUBDIRS = ['AiutiVerif/Buffer', 'AiutiVerif/Core', 'Driver.lean']
 ASSUMPTIONS_COMMON = [
     'asyncio semantics assumed by Buffer/Model.lean: callbacks are atomic between awaits; call_soon_threadsafe '
